@@ -29,7 +29,7 @@ MUST = ["values_kept_while_registers_change", "same_model_different_capabilities
         "cross_family_pairs", "same_template_pairs", "requests_compared", "concurrent_with_fragmented_answers", "long_history_pairs", "same_host_pairs", "drifting_measurements_pairs"]
 EXHAUSTIVE = {"quick": False, "thorough": False}
 
-TEMPLATES = ["ET205", "ET205g", "ET205u", "ET745", "ETv1", "ETf", "ETc", "ETr", "DT", "DTu", "DTc", "DTn", "ESv1", "ESv2", "ESv2g"]
+TEMPLATES = ["ET205", "ET205g", "ET205u", "ET745", "ETv1", "ETf", "ETc", "ETr", "DT", "DTu", "DTc", "DTn", "ESv1", "ESv2", "ESv2g", "ESe", "ESs"]
 
 
 # ---- worker side: one transcript per interpreter -------------------------------------------------------------------
@@ -74,7 +74,11 @@ def build_sim(tpl, seed, owner):
         sim.regs[40336] = rnd.randrange(0, 100)
         return sim
     v2 = tpl != "ESv1"
-    sim = models.es_sim(owner, fw=b"2225F" if v2 else b"02525", rnd=rnd, style="random")
+    if tpl in ("ESe", "ESs"):
+        # the SAME firmware string on two model lines: an EM unit (eco-mode v2 from DSP 11 on) and an ES unit (only from DSP 22 on)
+        sim = models.es_sim(owner, tag="EMU" if tpl == "ESe" else "ESU", fw=b"1212E", rnd=rnd, style="random")
+    else:
+        sim = models.es_sim(owner, fw=b"2225F" if v2 else b"02525", rnd=rnd, style="random")
     sim.settings[66:68] = rnd.choice((0, 2, 3)).to_bytes(2, "big")
     for gi, base in enumerate((1793, 1797, 1801, 1805)):
         b = bytes([rnd.randrange(24), rnd.randrange(60), rnd.randrange(24), rnd.randrange(60)]) + \
@@ -117,7 +121,7 @@ def worker(spec):
     for i, o in enumerate(objs):
         sim = build_sim(o["template"], o["seed"], f"inv{i}")
         sim.delay = spec.get("latency", 0.0)
-        sim.drift = bool(o.get("drift"))
+        sim.drift = o.get("drift") if o.get("drift") == "meter" else bool(o.get("drift"))
         if o.get("frag"):           # this inverter answers in two pieces (same in its solo transcript)
             sim.frag = tuple(o["frag"])
         if o.get("lossy"):          # the first `lossy` transmissions of every request towards this inverter are lost (same in its solo transcript)
@@ -400,6 +404,11 @@ def capability_scenarios(seed):
     what one object learns about ITS inverter must not change what the other object polls"""
     out = []
     rr = [["read_runtime_data"], ["read_runtime_data"], ["read_runtime_data"]]
+    es_calls = [["set_operation_mode", {"mode": "GENERAL"}], ["read_settings_data"], ["set_operation_mode", {"mode": "BACKUP"}], ["read_runtime_data"]]
+    for a, b in (("ESe", "ESs"), ("ESs", "ESe")):
+        out.append({"seed": f"{seed}:cap:{a}:{b}", "n_random_merges": 2, "n_concurrent": 1, "capabilities": True,
+                    "objects": [{"template": a, "port": 8899, "seed": f"{seed}:cA{len(out)}", "calls": es_calls},
+                                {"template": b, "port": 8899, "seed": f"{seed}:cB{len(out)}", "calls": es_calls}]})
     for a, b in (("DTn", "DT"), ("DT", "DTn"), ("DTn", "DTn"), ("ETr", "ET205"), ("ET205", "ETr"), ("ETr", "ET745"), ("ETr", "ETr")):
         out.append({"seed": f"{seed}:cap:{a}:{b}", "n_random_merges": 2, "n_concurrent": 1, "capabilities": True,
                     "objects": [{"template": a, "port": 8899, "seed": f"{seed}:cA{len(out)}", "calls": rr},
@@ -464,6 +473,11 @@ def drift_scenarios(seed):
         out.append({"seed": f"{seed}:drift:{a}:{b}", "n_random_merges": 1, "n_concurrent": 0, "drifting": True,
                     "objects": [{"template": a, "port": 8899, "seed": f"{seed}:dfA{len(out)}", "calls": rr, "drift": True},
                                 {"template": b, "port": 8899, "seed": f"{seed}:dfB{len(out)}", "calls": rr[:2], "drift": True}]})
+    # an idle inverter (running data and clock unchanged from poll to poll) whose smart-meter readings keep moving
+    for a, b in (("DT", "DT"), ("DT", "ET205"), ("ET205", "DT"), ("ET205", "ET205")):
+        out.append({"seed": f"{seed}:mdrift:{a}:{b}", "n_random_merges": 1, "n_concurrent": 0, "drifting": True,
+                    "objects": [{"template": a, "port": 8899, "seed": f"{seed}:dmA{len(out)}", "calls": rr, "drift": "meter"},
+                                {"template": b, "port": 8899 if len(out) % 2 else 502, "seed": f"{seed}:dmB{len(out)}", "calls": rr[:3], "drift": "meter"}]})
     return out
 
 
